@@ -27,7 +27,7 @@ def tasks(tier):
             for mode in ("iterations", "time"):
                 if q and pol != "DualNorm" and (cons or mode == "time"):
                     continue
-                t.append(dict(module="twin", fn="h_prefix", shape=dict(K=K, policy=pol, vars=["boxed"], cons=cons, mode=mode), opts=o))
+                t.append(dict(module="twin", fn="h_prefix", shape=dict(K=(2 if pol in twin.loop.HEAVY and cons else K), policy=pol, vars=["boxed"], cons=cons, mode=mode), opts=o))
     for nt, cons in (("Simplified", []), ("Full", ["eq0"])):
         t.append(dict(module="ctrl", fn="h_step", shape=dict(controller="Exact", newton=nt, vars=["boxed"], cons=cons, faults=False, time_limit=True), opts=dict(mulmode="uf", timeout_ms=10000)))
     return t
